@@ -9,7 +9,7 @@
      extract_loop_block             blocks.py:~700-~1010
      extract_join_choice_block      blocks.py:~1010-end
 
-   VERSION.  The unsuffixed names follow /repo as of commit 623c615.  Two parameters keep the
+   VERSION.  The unsuffixed names follow /repo as of commit 19fd338.  Two parameters keep the
    earlier code expressible (for the `_refuted` witnesses of Props/C11b.v and for checking an
    unpatched copy):
      fixed = false : extract_conditional_block as of commit 45ce265:
@@ -20,11 +20,15 @@
                        are flushed WITHOUT looking at the glue operator (only the flush at
                        @elif/@else/@endif honours `<>`).
                      * extract_loop_block dedents its raw body as collected (a leading comment line
-                       decides the base indentation).
+                       decides the base indentation);
+                     * whitespace-only lines of an @py: body are kept as written;
+                     * continuation lines of a multi-line `~` statement inside an @if branch keep the
+                       branch's indentation.
      fixed = true  : commits 2da11ec (= proposed_fixes/F11a-legacy-if-unclosed.diff: both header sites
                      raise SyntaxError), b0767bb (every flush goes through _append_text_lines, which
-                     honours `<>`) and 623c615 (comment lines at the head of a loop body are dropped
-                     before the body is dedented).
+                     honours `<>`), 623c615 (comment lines at the head of a loop body are dropped
+                     before the body is dedented), 3dd8bdc (whitespace-only lines of an @py: body become
+                     empty) and 19fd338 (continuation lines of a `~` statement in a branch are dedented).
      cap = None      : no limit on block nesting (the interpreter's recursion limit, which is outside
                        the model, is what stops a 1000-deep input: RecursionError, F11b)
      cap = Some 100  : commit 179a3c4 (= proposed_fixes/F11b-block-depth-limit.diff: SyntaxError beyond
@@ -242,23 +246,28 @@ Definition is_join_block_terminator (line : string) : bool :=
 (* extract_python_block                                                                         *)
 (* ------------------------------------------------------------------------------------------- *)
 
-(* _extract_py_new_syntax: the `while` from start_index + 1; k = lines consumed so far *)
-Fixpoint py_new_go (start : nat) (rest : list string) (code_lines : list string) (k : nat)
+(* _extract_py_new_syntax: the `while` from start_index + 1; k = lines consumed so far.
+   fx = true: commit 3dd8bdc (whitespace-only lines of the dedented body become empty lines, as in the
+   <<py form); fx = false: the body lines are joined as dedented *)
+Definition blank_to_empty (l : string) : string := if nonempty (strip l) then l else EmptyString.
+
+Fixpoint py_new_go (fx : bool) (start : nat) (rest : list string) (code_lines : list string) (k : nat)
   : pres (string * nat) :=
   match rest with
   | [] => PDiag (DSyntax "py-unclosed" start)
   | line :: rest' =>
       if String.eqb (strip line) "@endpy" then
-        POk (join nl (detect_and_strip_indentation code_lines), S k)
-      else py_new_go start rest' (code_lines ++ [line]) (S k)
+        let ded := detect_and_strip_indentation code_lines in
+        POk (join nl (if fx then map blank_to_empty ded else ded), S k)
+      else py_new_go fx start rest' (code_lines ++ [line]) (S k)
   end.
 
-Definition extract_py_new_syntax (lines : list string) (start : nat) : pres (string * nat) :=
+Definition extract_py_new_syntax_v (fx : bool) (lines : list string) (start : nat) : pres (string * nat) :=
   match nth_error lines start with
   | None => PInternal IIndex                                   (* lines[start_index] *)
   | Some line =>
       if negb (String.eqb (strip line) "@py:") then PDiag (DSyntax "py-missing-colon" start)
-      else py_new_go start (skipn (S start) lines) [] 1
+      else py_new_go fx start (skipn (S start) lines) [] 1
   end.
 
 (* _extract_py_old_syntax: never raises; an unclosed block runs to the end of `lines` and reports
@@ -290,15 +299,20 @@ Fixpoint py_old_go (rest : list string) (base : option nat) (code_lines : list s
 Definition extract_py_old_syntax (lines : list string) (start : nat) : string * nat :=
   py_old_go (skipn (S start) lines) None [] 1.
 
-Definition extract_python_block (lines : list string) (start : nat) : pres (string * nat) :=
+Definition extract_python_block_v (fx : bool) (lines : list string) (start : nat) : pres (string * nat) :=
   match nth_error lines start with
   | None => PInternal IIndex                                   (* lines[start_index] *)
   | Some line =>
       let stripped := strip line in
       if startswith stripped "<<py" then POk (extract_py_old_syntax lines start)
-      else if startswith stripped "@py" then extract_py_new_syntax lines start
+      else if startswith stripped "@py" then extract_py_new_syntax_v fx lines start
       else PDiag (DValue "python-block-on-non-python-line")
   end.
+
+(* current /repo, and the code before commit 3dd8bdc *)
+Definition extract_py_new_syntax := extract_py_new_syntax_v true.
+Definition extract_python_block := extract_python_block_v true.
+Definition extract_python_block_cur := extract_python_block_v false.
 
 (* ------------------------------------------------------------------------------------------- *)
 (* shared pieces of the conditional and loop extractors                                         *)
@@ -344,6 +358,20 @@ Definition flush_glue (content : list token) (ls : list string) : pres (list tok
 Definition py_statement (lines : list string) (i : nat) (raw : string) : string * nat :=
   let code := fst (strip_inline_comment (strip raw)) in
   lf_emx lf lines i code.
+
+(* the `~` statement of extract_conditional_block since commit 19fd338: when the statement spans
+   several lines, the continuation lines lines[i+1 : i+consumed] lose the indentation of the `~` line
+   (cont[indent:] if cont[:indent].strip() == "" else cont) and are joined to the first line's code;
+   what extract_multiline_expression assembled is then only used for its consumed count *)
+Definition dedent_cont (indent : nat) (cont : string) : string :=
+  if all_space (take indent cont) then drop indent cont else cont.
+
+Definition cond_py_statement (lines : list string) (i : nat) (line raw : string) : string * nat :=
+  let ck := py_statement lines i raw in
+  if fixed && (1 <? snd ck) then
+    let code := fst (strip_inline_comment (strip raw)) in
+    (join nl (code :: map (dedent_cont (ws_run line)) (firstn (snd ck - 1) (skipn (S i) lines))), snd ck)
+  else ck.
 
 (* jump line -> Some (target, args) when the regex matches *)
 Definition jump_of (stripped : string) : option (string * string) :=
@@ -446,7 +474,7 @@ Definition cond_step (lines : list string) (start i : nat) (line : string) (st :
   (* python block *)
   else if is_py_line stripped && cur then
     let* st1 := flush_cur st in
-    let* ck := extract_python_block lines i in
+    let* ck := extract_python_block_v fixed lines i in
     POk (CNext (push_tok st1 (TPyBlock (fst ck))) (snd ck))
   (* @input *)
   else if startswith stripped "@input" && cur then
@@ -469,7 +497,7 @@ Definition cond_step (lines : list string) (start i : nat) (line : string) (st :
   (* ~ statement *)
   else if startswith stripped "~ " && cur then
     let* st1 := flush_cur st in
-    let ck := py_statement lines i (drop 2 stripped) in
+    let ck := cond_py_statement lines i line (drop 2 stripped) in
     POk (CNext (push_tok st1 (TPyStmt (fst ck))) (snd ck))
   (* nested conditional (when there is no current branch the Python falls through to the tests below,
      none of which can apply to such a line except the final "regular line" arm, a no-op then) *)
@@ -607,7 +635,7 @@ Definition body_step (ded : list string) (j : nat) (line : string)
   let stripped := strip line in
   if startswith stripped "#" then POk (content, chs, 1)
   else if is_py_line stripped then
-    let* ck := extract_python_block ded j in
+    let* ck := extract_python_block_v fixed ded j in
     POk (content ++ [TPyBlock (fst ck)], chs, snd ck)
   else if startswith stripped "@input" then
     let* d := lf_input lf line in
@@ -776,10 +804,10 @@ End WithLinefns.
 
 (* the versions *)
 Definition max_block_depth : nat := 100.
-(* /repo as of 623c615 : what this file's unsuffixed names stand for *)
+(* /repo as of 19fd338 : what this file's unsuffixed names stand for *)
 Definition extract_conditional_block := extract_conditional_block_v true (Some max_block_depth).
 Definition extract_loop_block := extract_loop_block_v true (Some max_block_depth).
-(* /repo as of 623c615 without the nesting cap of 179a3c4 *)
+(* /repo as of 19fd338 without the nesting cap of 179a3c4 *)
 Definition extract_conditional_block_a := extract_conditional_block_v true None.
 Definition extract_loop_block_a := extract_loop_block_v true None.
 (* /repo as of 45ce265 *)
